@@ -1,0 +1,21 @@
+//go:build verif
+// +build verif
+
+package rtsp
+
+import "github.com/cnotch/ipchub/media"
+
+// Inspector for the verification harness (build tag verif only; property C12).
+
+// VerifMulticastState reports what the multicast proxy of a published source
+// holds: registered members, an open UDP socket, a running consumption on the
+// source stream. ok is false when ma is not this package's proxy.
+func VerifMulticastState(ma media.Multicastable) (members int, socket, consuming, ok bool) {
+	proxy, isProxy := ma.(*multicastProxy)
+	if !isProxy {
+		return 0, false, false, false
+	}
+	proxy.multicastLock.Lock()
+	defer proxy.multicastLock.Unlock()
+	return len(proxy.members), proxy.udpConn != nil, proxy.udpConn != nil && !proxy.closed, true
+}
